@@ -428,4 +428,28 @@ func init() {
 			"violations are lemma violations of the units, replayed natively on the units; end-to-end templates for the recorded findings are in /verif/findings"},
 		Intrinsics: []string{"bytes.Index/IndexByte/IndexAny/Equal/EqualFold/HasPrefix/ToUpper/Contains, bytes.Buffer", "strings.ToLower", "template.errorf: error message not built", "html.UnescapeString (stdlib SSA)"},
 	})
+
+	reg(&Prop{
+		ID:    "C08",
+		Title: "Template API totality, reduced to the byte-level kernels: no panic, bounded loops",
+		Harnesses: []HarnessSpec{
+			{Pkg: "template", Name: "vHarness_C08_text", Quick: []ParamRange{{"elem", 0, 8}, {"attr", 0, 1}, {"n", 0, 3}}, Thorough: []ParamRange{{"elem", 0, 8}, {"attr", 0, 5}, {"n", 0, 5}}, Reach: []string{"ran"},
+				Filter: func(p map[string]int) bool {
+					e := p["elem"]
+					return (e == 0 || e == 1 || e == 4 || e == 6 || p["n"] <= 2) && (p["n"] <= 4 || (e == 4 && p["attr"] == 0))
+				},
+				Desc: "escapeText from an arbitrary context satisfying the data invariant (state and delimiter symbolic) over a symbolic ASCII text: no panic (incl. the 'infinite loop' panic), no index/slice out of range, every loop within the unwinding bound, result in range, error state absorbing"},
+			{Pkg: "template", Name: "vHarness_C08_sanitizers", Quick: []ParamRange{{"san", 0, 19}, {"n", 0, 2}}, Thorough: []ParamRange{{"san", 0, 19}, {"n", 0, 3}}, Reach: []string{"ran"},
+				Desc: "each of the 20 run-time functions on 16 argument kinds (nil, string, the seven safe types, pointers, pointers to pointers, typed nil pointers): no panic"},
+		},
+		Probes: []ProbeSpec{},
+		Functions: []string{"everything encoded for C01 (escapeText, contextAfterText, the transition functions, indexTagEnd, eat*, isJsTemplateBalanced and helpers)", "the twenty functions of the funcs map", "safehtmlutil.Stringify / Indirect models"},
+		Bounds: map[string]string{
+			"quick":    "text: every ASCII string of length 0..3 (0..2 for five of nine element names) from every (state, delimiter) pair allowed by the data invariant x 9 element names x 2 attribute names; sanitizers: contents 0..2 bytes",
+			"thorough": "text 0..4 (0..5 in the script element) x 9 element names x 6 attribute names; contents 0..3",
+		},
+		Outside: []string{"the larger part of C08 as stated: escape()'s node-kind switch ({{break}}/{{continue}} panic), escapeTree on a nil tree, commit, lookupAndEscapeTemplate, Clone, Parse* and every call history - tree- and pointer-structure code under text/template with no symbolic data to quantify over; the check cannot see those panics and does not claim to",
+			"unwinding bound: 400 visits of one block per frame, 5,000,000 instructions per path"},
+		Intrinsics: []string{"as C01"},
+	})
 }
